@@ -72,7 +72,7 @@ def msg_key_lib(m):
 
 class C04(Check):
     prop = "C04"
-    quick_runs = 96
+    quick_runs = 128
     thorough_runs = 3000
     run_wall = 600.0
     rule = ("one run = a live node brought to Open, then a sequence of <= 40 uniquely tagged application messages and "
